@@ -37,12 +37,84 @@ def _oarr(x):
     return np.asarray(x)
 
 
+class SymArr(np.ndarray):
+    """object ndarray whose boolean-mask indexing forks on symbolic booleans, and whose astype(int) truncates"""
+
+    def __getitem__(self, idx):
+        return super().__getitem__(_conc_index(idx))
+
+    def __setitem__(self, idx, val):
+        super().__setitem__(_conc_index(idx), val)
+
+    def astype(self, dtype, *a, **k):
+        if dtype is sx.sint or dtype is int:
+            return _map(sx.sint, self).view(IntObjArr) if self.shape else sx.sint(self[()])
+        if dtype is sx.sfloat or dtype is float:
+            return _map(sx.sfloat, self)
+        if dtype is bool:
+            return _conc_mask(self)
+        try:
+            if np.dtype(dtype) == object:
+                return self.copy()
+        except TypeError:
+            pass
+        return np.asarray(self).astype(dtype, *a, **k)
+
+
+class IntObjArr(SymArr):
+    """stands for an integer ndarray: values assigned into it are truncated like a cast to int"""
+
+    def __setitem__(self, idx, val):
+        if is_sym(val) or isinstance(val, (float, np.floating)) or (isinstance(val, np.ndarray) and val.dtype.kind == "f"):
+            val = _map(sx.sint, val)
+        super().__setitem__(idx, val)
+
+
+def _conc_mask(a):
+    out = np.zeros(a.shape, dtype=bool)
+    for i in np.ndindex(a.shape):
+        out[i] = bool(a[i])
+    return out
+
+
+def _is_boolish(a):
+    if not (isinstance(a, np.ndarray) and a.dtype == object and a.size):
+        return False
+    return all(isinstance(v, (SBool, bool, np.bool_)) for v in a.ravel())
+
+
+def _conc_index(idx):
+    if isinstance(idx, tuple):
+        return tuple(_conc_index(i) for i in idx)
+    if _is_boolish(idx):
+        return _conc_mask(idx)
+    if isinstance(idx, np.ndarray) and idx.dtype == object and idx.size and any(isinstance(v, SNum) for v in idx.ravel()):
+        out = np.zeros(idx.shape, dtype=np.intp)
+        for i in np.ndindex(idx.shape):
+            out[i] = idx[i].__index__() if isinstance(idx[i], SNum) else int(idx[i])
+        return out
+    return idx
+
+
 def _map(f, x):
     a = _oarr(x)
     out = np.empty(a.shape, dtype=object)
     for idx in np.ndindex(a.shape):
         out[idx] = f(a[idx])
-    return out if out.shape else out[()]
+    return out.view(SymArr) if out.shape else out[()]
+
+
+def _int_alloc(name):
+    npf = getattr(np, name)
+
+    def f(shape, *a, dtype=None, **k):
+        if dtype is sx.sint:
+            return npf(shape, *a, dtype=object, **k).view(IntObjArr)
+        if dtype is sx.sfloat:
+            return npf(shape, *a, dtype=float, **k)
+        return npf(shape, *a, dtype=dtype, **k) if dtype is not None else npf(shape, *a, **k)
+
+    return f
 
 
 def _unary(name, pyfunc, meth=None):
@@ -502,6 +574,7 @@ def make_shim(pi=False, **over):
         angle=_angle, hypot=_hypot, round=_round, around=_round, real=_real_part, imag=_imag_part,
         conj=_conj, conjugate=_conj, isscalar=_isscalar, prod=_prod, fft=_ExactFFT, linalg=_Linalg(),
         float32=object, float64=object, complex64=object, complex128=object,
+        ones=_int_alloc("ones"), zeros=_int_alloc("zeros"), empty=_int_alloc("empty"),
     )
     if pi:
         d["pi"] = SNum(sx.PI)
